@@ -24,6 +24,12 @@ func main() {
 		checks.DebugHist(os.Args[2:])
 		return
 	}
+	if id == "cdebug" {
+		idx := 0
+		fmt.Sscan(os.Args[3], &idx)
+		checks.CDebug(os.Args[2], idx, os.Args[4:])
+		return
+	}
 	if id == "debug" {
 		idx := 0
 		fmt.Sscan(os.Args[3], &idx)
